@@ -1,12 +1,39 @@
 import CoolerModel.Drv.JsonUtil
 import CoolerModel.Model.Unordered
 import CoolerModel.Model.GroupAgg
+import CoolerModel.Model.MergeDtype
 open Lean
 namespace Cooler.Drv.C07
-open Cooler Cooler.Drv Cooler.Merge Cooler.Unordered
+open Cooler Cooler.Drv Cooler.Merge Cooler.Unordered Cooler.MergeDtype
 
 def perInputDone (inputs : List Pixels) (part : List Nat) : Bool :=
   inputs.all fun ps => decide (off ps (part.getLast?.getD 0) = ps.length)
+
+/-- the aggregation functions by the name pandas knows them under (applied to a pixel's values in input order) -/
+def aggOf (name : String) : R (List Int → Int) :=
+  match name with
+  | "sum" => pure listSum
+  | "max" => pure (fun vs => match vs with | [] => 0 | v :: rest => rest.foldl max v)
+  | "min" => pure (fun vs => match vs with | [] => 0 | v :: rest => rest.foldl min v)
+  | "first" => pure (fun vs => vs.headD 0)
+  | "last" => pure (fun vs => vs.getLastD 0)
+  | "count" => pure (fun vs => (vs.length : Int))
+  -- aggregates that are NOT the identity on a single value (custom callables on the Python side)
+  | "range" => pure (fun vs => match vs with
+      | [] => 0
+      | v :: rest => rest.foldl max v - rest.foldl min v)
+  | "twice" => pure (fun vs => 2 * listSum vs)
+  | _ => throw s!"unknown agg {name}"
+
+/-- a value dtype: `{"signed": b, "bits": n}` or `{"mant": n}` -/
+def vtypeOf (j : Json) : R VType := do
+  match fld j "mant" with
+  | .ok m => return .float (← natOf m)
+  | .error _ => return .int (← getBool j "signed") (← getNat j "bits")
+
+def jVType : VType → Json
+  | .int s b => Json.mkObj [("signed", Json.bool s), ("bits", jNat b)]
+  | .float m => Json.mkObj [("mant", jNat m)]
 
 def handle : Handler := fun op a =>
   match op with
@@ -30,24 +57,62 @@ def handle : Handler := fun op a =>
       let n ← getNat a "n"
       let buf ← getNat a "mergebuf"
       let name ← getStr a "agg"
-      let agg : List Int → Int ← match name with
-        | "sum" => pure listSum
-        | "max" => pure (fun vs => match vs with | [] => 0 | v :: rest => rest.foldl max v)
-        | "min" => pure (fun vs => match vs with | [] => 0 | v :: rest => rest.foldl min v)
-        | "first" => pure (fun vs => vs.headD 0)
-        | "last" => pure (fun vs => vs.getLastD 0)
-        | "count" => pure (fun vs => (vs.length : Int))
-        -- aggregates that are NOT the identity on a single value (custom callables on the Python side)
-        | "range" => pure (fun vs => match vs with
-            | [] => 0
-            | v :: rest => rest.foldl max v - rest.foldl min v)
-        | "twice" => pure (fun vs => 2 * listSum vs)
-        | _ => throw s!"unknown agg {name}"
+      let agg ← aggOf name
       let comb := combinedIndex (inputs.map fun ps => csrIndex ps n)
       let part := mergeBreakpoints comb buf
       let spec := mergeSpecAgg agg inputs
       return Json.mkObj [("spec", jPixels spec),
         ("l1_agrees", Json.bool (decide ((mergerAgg agg inputs part).flatten = spec)))]
+  | "C07.merge_typed" => some do
+      -- the dtype clause: inputs whose value columns are stored in `in_types`, output column `out` (null: omitted =
+      -- the common type of the inputs), aggregation `agg`
+      let inputs ← fld a "inputs" >>= listOf (listOf pxOf)
+      let n ← getNat a "n"
+      let buf ← getNat a "mergebuf"
+      let name ← getStr a "agg"
+      let agg ← aggOf name
+      let ins ← fld a "in_types" >>= listOf vtypeOf
+      let outReq ← fld a "out" >>= optOf vtypeOf
+      let out := outReq.getD (common ins)
+      let spec := mergeSpecAgg agg inputs
+      let comb := combinedIndex (inputs.map fun ps => csrIndex ps n)
+      let part := mergeBreakpoints comb buf
+      let inputsOk := decide (ins.length = inputs.length) &&
+        (List.zip ins inputs).all fun tp => tp.2.all fun p => tp.1.holds p.v
+      let (stored, streamOk, unchecked) := match out with
+        | .int s b => (mergeTyped agg s b inputs, decide (mergerTyped agg s b inputs part = mergeTyped agg s b inputs),
+                       spec.map fun p => Create.clipInt s b p.v)
+        | .float _ => (some spec, true, spec.map Px.v)
+      let v := verdict agg (name == "sum") ins out inputs
+      return Json.mkObj [
+        ("spec", jPixels spec), ("total", jInt (total spec)), ("out", jVType out),
+        ("verdict", Json.str (match v with | .exact => "exact" | .refuse => "refuse" | .unconstrained => "unconstrained")),
+        ("stored", jOpt jPixels stored), ("unchecked", jInts unchecked),
+        ("inputs_ok", Json.bool inputsOk), ("stream_agrees", Json.bool streamOk),
+        ("model_partition_valid", Json.bool (validBreakpoints comb part && perInputDone inputs part)),
+        ("total_safe", Json.bool (totalSafe ins out spec))]
+  | "C07.merge_as_built" => some do
+      -- variant oracle of the known findings D32 (64-bit accumulator wraps) and D33 (uint64 next to a signed dtype: float64
+      -- arithmetic): what the implementation as built leaves in the output column, and which of the two deviations occurred
+      let inputs ← fld a "inputs" >>= listOf (listOf pxOf)
+      let n ← getNat a "n"
+      let buf ← getNat a "mergebuf"
+      let name ← getStr a "agg"
+      let agg ← aggOf name
+      let ins ← fld a "in_types" >>= listOf vtypeOf
+      let outReq ← fld a "out" >>= optOf vtypeOf
+      let out := outReq.getD (common ins)
+      let comb := combinedIndex (inputs.map fun ps => csrIndex ps n)
+      let part := mergeBreakpoints comb buf
+      let chunks := match part with
+        | [] => []
+        | p0 :: rest => mergerAsBuiltFrom agg (name == "sum") (intsOf ins) inputs p0 rest
+      let deviates := fun (c : Pixels × Pixels × AccPath) => decide (c.1 ≠ c.2.1)
+      return Json.mkObj [
+        ("applicable", Json.bool ((floatsOf ins).isEmpty && decide (ins.length = inputs.length))),
+        ("outcome", jOpt jPixels (storeAsBuilt out (chunks.map fun c => c.1))),
+        ("wrap", Json.bool (chunks.any fun c => deviates c && decide (c.2.2 ≠ AccPath.float64))),
+        ("float", Json.bool (chunks.any fun c => deviates c && decide (c.2.2 = AccPath.float64)))]
   | "C07.breakpoints" => some do
       let indexes ← fld a "indexes" >>= listOf (listOf natOf)
       let buf ← getNat a "bufsize"
